@@ -11,6 +11,932 @@ Definition deletes_version (o : op) (b k : list N) (id : N) : Prop :=
   | OMultiDelete b' ks => b' = b /\ In (k, Some id) ks
   | _ => False
   end.
+From Coq Require Import Lia ZifyBool ZifyN.
+Local Open Scope N_scope.
+
+(* ---------- association-list membership ---------- *)
+Section MapIn.
+Context {V : Type}.
+
+Lemma get_in k (v : V) m : sm_get k m = Some v -> In (k, v) m.
+Proof.
+  induction m as [|[k2 v2] m IH]; cbn; [discriminate|].
+  destruct (beq k k2) eqn:E.
+  - intros H. inversion H; subst. apply beq_eq in E. subst. left. reflexivity.
+  - intros H. right. apply IH. exact H.
+Qed.
+
+Lemma in_set k (v : V) m k' v' : In (k', v') (sm_set k v m) -> (k', v') = (k, v) \/ In (k', v') m.
+Proof.
+  induction m as [|[k2 v2] m IH]; cbn.
+  - intros [H|[]]. left. symmetry. exact H.
+  - destruct (beq k k2) eqn:E; cbn.
+    + intros [H|H]; [left; symmetry; exact H|right; right; exact H].
+    + destruct (bltb k k2); cbn.
+      * intros [H|H]; [left; symmetry; exact H|right; exact H].
+      * intros [H|H]; [right; left; exact H|].
+        destruct (IH H) as [H1|H1]; [left; exact H1|right; right; exact H1].
+Qed.
+
+Lemma in_del k m k' (v' : V) : In (k', v') (sm_del k m) -> In (k', v') m.
+Proof.
+  induction m as [|[k2 v2] m IH]; cbn; [trivial|].
+  destruct (beq k k2); cbn.
+  - intros H. right. exact H.
+  - intros [H|H]; [left; exact H|right; apply IH; exact H].
+Qed.
+End MapIn.
+
+(* ---------- version lists ---------- *)
+Fixpoint vsorted (l : list vdata) : Prop :=
+  match l with
+  | [] => True
+  | v :: l' => Forall (fun w => vd_vid v < vd_vid w) l' /\ vsorted l'
+  end.
+Definition vbelow (top : N) (l : list vdata) : Prop := Forall (fun v => vd_vid v < top) l.
+
+Lemma vers_ok_iff top l : vers_ok top l <-> vbelow top l /\ vsorted l.
+Proof.
+  unfold vbelow. induction l as [|v l IH]; cbn [vers_ok vsorted].
+  - split; [intros _; split; [constructor|exact I]|trivial].
+  - split.
+    + intros (H1 & H2 & H3). apply IH in H3. destruct H3 as [H3 H4].
+      split; [constructor; assumption|]. split; [|exact H4].
+      destruct l as [|w l']; [constructor|]. cbn [vsorted] in H4. destruct H4 as [H4 H5].
+      constructor; [exact H2|]. eapply Forall_impl; [|exact H4]. cbn beta. intros a Ha. lia.
+    + intros (H1 & H2 & H3). apply Forall_cons_iff in H1 as [H1a H1b]. split; [exact H1a|]. split.
+      * destruct l as [|w l']; [exact I|]. apply Forall_cons_iff in H2 as [H2a H2b]. exact H2a.
+      * apply IH. split; assumption.
+Qed.
+
+Lemma vers_ok_weaken top top' l : top <= top' -> vers_ok top l -> vers_ok top' l.
+Proof.
+  intros Hle H. apply vers_ok_iff in H as [H1 H2]. apply vers_ok_iff. split; [|exact H2].
+  unfold vbelow in *. eapply Forall_impl; [|exact H1]. cbn beta. intros a Ha. lia.
+Qed.
+
+Lemma vers_ok_in top l v : vers_ok top l -> In v l -> vd_vid v < top.
+Proof.
+  intros H Hin. apply vers_ok_iff in H as [H1 _]. unfold vbelow in H1.
+  rewrite Forall_forall in H1. apply H1. exact Hin.
+Qed.
+
+Lemma vers_get_insert id v l :
+  vers_get id (vers_insert v l) = if N.eqb id (vd_vid v) then Some v else vers_get id l.
+Proof.
+  induction l as [|w l IH]; cbn [vers_insert vers_get].
+  - reflexivity.
+  - destruct (N.eqb (vd_vid v) (vd_vid w)) eqn:E1; cbn [vers_get].
+    + apply N.eqb_eq in E1. rewrite <- E1. destruct (N.eqb id (vd_vid v)); reflexivity.
+    + destruct (N.ltb (vd_vid v) (vd_vid w)); cbn [vers_get].
+      * reflexivity.
+      * rewrite IH. destruct (N.eqb id (vd_vid w)) eqn:E2; [|reflexivity].
+        destruct (N.eqb id (vd_vid v)) eqn:E3; [|reflexivity].
+        apply N.eqb_eq in E2, E3. apply N.eqb_neq in E1. congruence.
+Qed.
+
+Lemma vers_get_del_neq id id' l : id <> id' -> vers_get id (vers_del id' l) = vers_get id l.
+Proof.
+  intros Hne. induction l as [|w l IH]; cbn [vers_del vers_get]; [reflexivity|].
+  destruct (N.eqb id' (vd_vid w)) eqn:E1.
+  - apply N.eqb_eq in E1. destruct (N.eqb id (vd_vid w)) eqn:E2; [|reflexivity].
+    apply N.eqb_eq in E2. congruence.
+  - cbn [vers_get]. rewrite IH. reflexivity.
+Qed.
+
+Lemma vers_get_in id l v : vers_get id l = Some v -> In v l /\ vd_vid v = id.
+Proof.
+  induction l as [|w l IH]; cbn [vers_get]; [discriminate|].
+  destruct (N.eqb id (vd_vid w)) eqn:E.
+  - intros H. inversion H; subst. apply N.eqb_eq in E. split; [left; reflexivity|symmetry; exact E].
+  - intros H. destruct (IH H) as [H1 H2]. split; [right; exact H1|exact H2].
+Qed.
+
+Lemma vers_get_none id l : (forall w, In w l -> vd_vid w <> id) -> vers_get id l = None.
+Proof.
+  induction l as [|w l IH]; cbn [vers_get]; [reflexivity|]. intros H.
+  destruct (N.eqb id (vd_vid w)) eqn:E.
+  - apply N.eqb_eq in E. exfalso. apply (H w); [left; reflexivity|symmetry; exact E].
+  - apply IH. intros x Hx. apply H. right. exact Hx.
+Qed.
+
+Lemma vers_get_app id l1 l2 :
+  vers_get id (l1 ++ l2) = match vers_get id l1 with Some v => Some v | None => vers_get id l2 end.
+Proof.
+  induction l1 as [|w l1 IH]; cbn [app vers_get]; [reflexivity|].
+  destruct (N.eqb id (vd_vid w)); [reflexivity|exact IH].
+Qed.
+
+Lemma in_vers_del id l w : In w (vers_del id l) -> In w l.
+Proof.
+  induction l as [|x l IH]; cbn [vers_del]; [trivial|].
+  destruct (N.eqb id (vd_vid x)).
+  - intros H. right. exact H.
+  - intros [H|H]; [left; exact H|right; apply IH; exact H].
+Qed.
+
+Lemma forall_vers_del (P : vdata -> Prop) id l : Forall P l -> Forall P (vers_del id l).
+Proof.
+  rewrite !Forall_forall. intros H x Hx. apply H. eapply in_vers_del. exact Hx.
+Qed.
+
+Lemma vsorted_del id l : vsorted l -> vsorted (vers_del id l).
+Proof.
+  induction l as [|x l IH]; cbn [vers_del vsorted]; [trivial|]. intros [H1 H2].
+  destruct (N.eqb id (vd_vid x)); [exact H2|]. cbn [vsorted].
+  split; [apply forall_vers_del; exact H1|apply IH; exact H2].
+Qed.
+
+Lemma vers_ok_del top id l : vers_ok top l -> vers_ok top (vers_del id l).
+Proof.
+  intros H. apply vers_ok_iff in H as [H1 H2]. apply vers_ok_iff.
+  split; [apply forall_vers_del; exact H1|apply vsorted_del; exact H2].
+Qed.
+
+Lemma vers_get_del_eq id l : vsorted l -> vers_get id (vers_del id l) = None.
+Proof.
+  induction l as [|x l IH]; cbn [vers_del vsorted]; [reflexivity|]. intros [H1 H2].
+  destruct (N.eqb id (vd_vid x)) eqn:E.
+  - apply N.eqb_eq in E. apply vers_get_none. rewrite Forall_forall in H1.
+    intros w Hw. specialize (H1 w Hw). lia.
+  - cbn [vers_get]. rewrite E. apply IH. exact H2.
+Qed.
+
+Lemma vsorted_app l x :
+  vsorted (l ++ [x]) <-> vsorted l /\ Forall (fun v => vd_vid v < vd_vid x) l.
+Proof.
+  induction l as [|v l IH]; cbn [app vsorted].
+  - split; [intros _; split; [exact I|constructor]|intros _; split; [constructor|exact I]].
+  - rewrite Forall_app, IH. split.
+    + intros ((H1 & H2) & H3 & H4). apply Forall_cons_iff in H2 as [H2 _].
+      split; [split; assumption|]. constructor; assumption.
+    + intros ((H1 & H2) & H3). apply Forall_cons_iff in H3 as [H3 H4].
+      split; [split; [exact H1|]|split; assumption]. constructor; [exact H3|constructor].
+Qed.
+
+Lemma vers_ok_snoc top l x :
+  vers_ok top (l ++ [x]) <-> vers_ok (vd_vid x) l /\ vbelow top l /\ vd_vid x < top.
+Proof.
+  rewrite !vers_ok_iff. unfold vbelow. rewrite Forall_app, vsorted_app. split.
+  - intros ((H1 & H2) & H3 & H4). apply Forall_cons_iff in H2 as [H2 _]. repeat split; assumption.
+  - intros ((H1 & H2) & H3 & H4). repeat split; try assumption. constructor; [exact H4|constructor].
+Qed.
+
+Lemma vers_insert_top v l : vbelow (vd_vid v) l -> vers_insert v l = l ++ [v].
+Proof.
+  unfold vbelow. induction l as [|w l IH]; intros H; cbn [vers_insert app]; [reflexivity|].
+  apply Forall_cons_iff in H as [H1 H2].
+  destruct (N.eqb (vd_vid v) (vd_vid w)) eqn:E1; [apply N.eqb_eq in E1; lia|].
+  destruct (N.ltb (vd_vid v) (vd_vid w)) eqn:E2; [apply N.ltb_lt in E2; lia|].
+  rewrite IH by exact H2. reflexivity.
+Qed.
+
+Lemma vers_last_spec l :
+  (l = [] /\ vers_last l = None) \/
+  exists l' nv, l = l' ++ [nv] /\ vers_last l = Some nv /\ vers_but_last l = l'.
+Proof.
+  destruct l as [|a l0]; [left; split; reflexivity|right].
+  destruct (@exists_last _ (a :: l0)) as (l' & nv & E); [discriminate|].
+  rewrite E. exists l', nv. split; [reflexivity|].
+  unfold vers_last, vers_but_last. rewrite map_app. cbn [map].
+  rewrite last_last, removelast_last. split; reflexivity.
+Qed.
+
+(* ---------- object level ---------- *)
+Definition obj_ver (o : obj) (id : N) : obj_result :=
+  match o_data o with
+  | Some cur => if N.eqb (vd_vid cur) id then OObj cur true
+                else match vers_get id (o_vers o) with
+                     | None => OErr ENoSuchVersion
+                     | Some v => OObj v true
+                     end
+  | None => match vers_get id (o_vers o) with
+            | None => OErr ENoSuchVersion
+            | Some v => OObj v true
+            end
+  end.
+
+Definition bver (bk : bucket) (k : list N) (id : N) : obj_result :=
+  match sm_get k (b_objs bk) with
+  | None => OErr ENoSuchKey
+  | Some o => obj_ver o id
+  end.
+
+Lemma gov_bver s b k id :
+  get_object_version s b k id =
+  match get_bucket s b with None => OErr ENoSuchBucket | Some bk => bver bk k id end.
+Proof. reflexivity. Qed.
+
+Lemma obj_ver_sv o id v sv : obj_ver o id = OObj v sv -> sv = true.
+Proof.
+  unfold obj_ver. destruct (o_data o) as [cur|].
+  - destruct (N.eqb (vd_vid cur) id); [intros H; inversion H; reflexivity|].
+    destruct (vers_get id (o_vers o)); [intros H; inversion H; reflexivity|discriminate].
+  - destruct (vers_get id (o_vers o)); [intros H; inversion H; reflexivity|discriminate].
+Qed.
+
+Lemma bver_sv bk k id v sv : bver bk k id = OObj v sv -> sv = true.
+Proof.
+  unfold bver. destruct (sm_get k (b_objs bk)); [apply obj_ver_sv|discriminate].
+Qed.
+
+Lemma gov_sv s b k id v sv : get_object_version s b k id = OObj v sv -> sv = true.
+Proof.
+  rewrite gov_bver. destruct (get_bucket s b); [apply bver_sv|discriminate].
+Qed.
+
+(* what a successful lookup by id means, for a well-formed object *)
+Lemma obj_ver_cases next o id v sv :
+  obj_ok next o -> obj_ver o id = OObj v sv ->
+  sv = true /\ vd_vid v = id /\ vd_vid v <= next /\ 0 < vd_vid v /\
+  exists cur, o_data o = Some cur /\ vd_vid v <= vd_vid cur /\
+    (v = cur \/ (vd_vid cur <> id /\ vers_get id (o_vers o) = Some v /\ In v (o_vers o) /\
+                 vd_vid v < vd_vid cur)).
+Proof.
+  intros (cur & Hd & Hle & Hpos & Hok & Hfa) H. pose proof (obj_ver_sv _ _ _ _ H) as Hsv.
+  unfold obj_ver in H. rewrite Hd in H.
+  destruct (N.eqb (vd_vid cur) id) eqn:E.
+  - inversion H; subst. apply N.eqb_eq in E.
+    repeat split; try assumption. exists v. split; [exact Hd|]. split; [lia|left; reflexivity].
+  - destruct (vers_get id (o_vers o)) as [w|] eqn:Eg; [|discriminate]. inversion H; subst.
+    apply N.eqb_neq in E. destruct (vers_get_in _ _ _ Eg) as [Hin Hid].
+    pose proof (vers_ok_in _ _ _ Hok Hin) as Hlt.
+    rewrite Forall_forall in Hfa. specialize (Hfa _ Hin). cbn beta in Hfa.
+    split; [reflexivity|]. split; [exact Hid|]. split; [lia|]. split; [exact Hfa|].
+    exists cur. split; [exact Hd|]. split; [lia|]. right. repeat split; assumption.
+Qed.
+
+(* the object written by bucket_put *)
+Definition put_obj (en : bool) (item : vdata) (o : obj) : obj :=
+  {| o_data := Some item;
+     o_vers := match o_data o with
+               | Some cur => if en || negb (vd_null cur) then vers_insert cur (o_vers o)
+                             else o_vers o
+               | None => o_vers o
+               end |}.
+
+Definition put_item (bk : bucket) (next : N) (marker : bool) (body : list N) (m : meta) : vdata :=
+  {| vd_vid := next + 1; vd_null := negb (is_enabled (b_ver bk)); vd_marker := marker;
+     vd_body := body; vd_meta := m |}.
+
+Definition empty_obj : obj := {| o_data := None; o_vers := [] |}.
+
+Lemma bucket_put_eq bk next k marker body m :
+  bucket_put bk next k marker body m =
+  ({| b_ver := b_ver bk;
+      b_objs := sm_set k (put_obj (is_enabled (b_ver bk)) (put_item bk next marker body m)
+                            (match sm_get k (b_objs bk) with Some o => o | None => empty_obj end))
+                      (b_objs bk) |}, next + 1, next + 1).
+Proof. reflexivity. Qed.
+
+Lemma put_obj_ok next en item o :
+  obj_ok next o \/ o = empty_obj -> vd_vid item = next + 1 ->
+  obj_ok (next + 1) (put_obj en item o).
+Proof.
+  intros Ho Hid. exists item. cbn [put_obj o_data o_vers]. rewrite Hid.
+  split; [reflexivity|]. split; [lia|]. split; [lia|].
+  destruct Ho as [(cur & Hd & Hle & Hpos & Hok & Hfa)| ->].
+  - rewrite Hd. destruct (en || negb (vd_null cur)).
+    + rewrite vers_insert_top by (apply vers_ok_iff in Hok; apply Hok). split.
+      * apply vers_ok_snoc. split; [exact Hok|]. split; [|lia].
+        apply vers_ok_iff in Hok as [Hb _]. unfold vbelow in *.
+        eapply Forall_impl; [|exact Hb]. cbn beta. intros a Ha. lia.
+      * apply Forall_app. split; [exact Hfa|]. constructor; [exact Hpos|constructor].
+    + split; [|exact Hfa]. eapply vers_ok_weaken; [|exact Hok]. lia.
+  - cbn. split; [exact I|constructor].
+Qed.
+
+Lemma obj_ver_put next en item o id v sv :
+  obj_ok next o -> obj_ver o id = OObj v sv -> vd_null v = false -> vd_vid item = next + 1 ->
+  obj_ver (put_obj en item o) id = OObj v true.
+Proof.
+  intros Ho H Hn Hid.
+  destruct (obj_ver_cases _ _ _ _ _ Ho H) as (_ & Hv & Hle & _ & cur & Hd & _ & Hc).
+  unfold obj_ver, put_obj. cbn [o_data o_vers]. rewrite Hd.
+  assert (E : N.eqb (vd_vid item) id = false) by (apply N.eqb_neq; lia). rewrite E.
+  destruct Hc as [<- | (Hne & Hg & _ & _)].
+  - rewrite Hn. rewrite orb_true_r. rewrite vers_get_insert.
+    rewrite (proj2 (N.eqb_eq id (vd_vid v))) by (symmetry; exact Hv). reflexivity.
+  - destruct (en || negb (vd_null cur)).
+    + rewrite vers_get_insert. rewrite (proj2 (N.eqb_neq id (vd_vid cur))) by congruence.
+      rewrite Hg. reflexivity.
+    + rewrite Hg. reflexivity.
+Qed.
+
+(* the object left by drop_current *)
+Definition drop_obj (o : obj) (nv : vdata) : obj :=
+  {| o_data := Some nv; o_vers := vers_but_last (o_vers o) |}.
+
+Lemma drop_obj_ok next o nv :
+  obj_ok next o -> vers_last (o_vers o) = Some nv -> obj_ok next (drop_obj o nv).
+Proof.
+  intros (cur & Hd & Hle & Hpos & Hok & Hfa) Hl.
+  destruct (vers_last_spec (o_vers o)) as [[_ Hn]|(l' & nv' & El & Hl' & Hbl)]; [congruence|].
+  assert (nv' = nv) by congruence. subst nv'.
+  exists nv. unfold drop_obj. cbn [o_data o_vers]. rewrite Hbl. rewrite El in Hok, Hfa.
+  apply vers_ok_snoc in Hok as (Hok1 & Hok2 & Hok3).
+  apply Forall_app in Hfa as [Hfa1 Hfa2]. apply Forall_cons_iff in Hfa2 as [Hfa2 _].
+  split; [reflexivity|]. split; [lia|]. split; [exact Hfa2|]. split; assumption.
+Qed.
+
+Lemma obj_ver_drop next o id v sv :
+  obj_ok next o -> obj_ver o id = OObj v sv -> (forall cur, o_data o = Some cur -> v <> cur) ->
+  exists nv, vers_last (o_vers o) = Some nv /\ obj_ver (drop_obj o nv) id = OObj v true.
+Proof.
+  intros Ho H Hne.
+  destruct (obj_ver_cases _ _ _ _ _ Ho H) as (_ & Hv & _ & _ & cur & Hd & _ & Hc).
+  destruct Hc as [-> | (Hne' & Hg & Hin & Hlt)]; [exfalso; apply (Hne cur Hd); reflexivity|].
+  destruct Ho as (cur' & Hd' & _ & _ & Hok & _).
+  destruct (vers_last_spec (o_vers o)) as [[Hn _]|(l' & nv & El & Hl & Hbl)].
+  - rewrite Hn in Hin. destruct Hin.
+  - exists nv. split; [exact Hl|]. unfold obj_ver, drop_obj. cbn [o_data o_vers]. rewrite Hbl.
+    rewrite El in Hok, Hg. apply vers_ok_snoc in Hok as (Hok1 & _ & _).
+    rewrite vers_get_app in Hg. destruct (vers_get id l') as [w|] eqn:Eg.
+    + inversion Hg; subst w. destruct (vers_get_in _ _ _ Eg) as [Hin' _].
+      pose proof (vers_ok_in _ _ _ Hok1 Hin') as Hlt'.
+      rewrite (proj2 (N.eqb_neq (vd_vid nv) id)) by lia. reflexivity.
+    + cbn [vers_get] in Hg. destruct (N.eqb id (vd_vid nv)) eqn:E; [|discriminate].
+      inversion Hg; subst v. rewrite N.eqb_sym, E. reflexivity.
+Qed.
+
+(* after dropping the current version [cur], the id of [cur] is gone *)
+Lemma obj_ver_drop_gone next o cur nv v sv :
+  obj_ok next o -> o_data o = Some cur -> vers_last (o_vers o) = Some nv ->
+  obj_ver (drop_obj o nv) (vd_vid cur) <> OObj v sv.
+Proof.
+  intros Ho Hd Hl H. pose proof (drop_obj_ok _ _ _ Ho Hl) as Ho'.
+  destruct (obj_ver_cases _ _ _ _ _ Ho' H) as (_ & Hv & _ & _ & cur' & Hd' & _ & Hc).
+  destruct Ho as (cur0 & Hd0 & _ & _ & Hok & _). assert (cur0 = cur) by congruence. subst cur0.
+  destruct (vers_last_spec (o_vers o)) as [[_ Hn]|(l' & nv' & El & Hl' & Hbl)]; [congruence|].
+  assert (nv' = nv) by congruence. subst nv'.
+  unfold drop_obj in Hd', Hc. cbn [o_data o_vers] in Hd', Hc. rewrite Hbl in Hc.
+  rewrite El in Hok. apply vers_ok_snoc in Hok as (Hok1 & Hok2 & Hok3).
+  inversion Hd'; subst cur'.
+  destruct Hc as [-> | (_ & _ & Hin & _)]; [lia|].
+  unfold vbelow in Hok2. rewrite Forall_forall in Hok2. specialize (Hok2 _ Hin). cbn beta in Hok2. lia.
+Qed.
+
+(* the object left by deleting an archived version *)
+Definition del_obj (o : obj) (id : N) : obj :=
+  {| o_data := o_data o; o_vers := vers_del id (o_vers o) |}.
+
+Lemma del_obj_ok next o id : obj_ok next o -> obj_ok next (del_obj o id).
+Proof.
+  intros (cur & Hd & Hle & Hpos & Hok & Hfa). exists cur. unfold del_obj. cbn [o_data o_vers].
+  split; [exact Hd|]. split; [exact Hle|]. split; [exact Hpos|].
+  split; [apply vers_ok_del; exact Hok|apply forall_vers_del; exact Hfa].
+Qed.
+
+Lemma obj_ver_del_neq o id id' : id <> id' -> obj_ver (del_obj o id') id = obj_ver o id.
+Proof.
+  intros Hne. unfold obj_ver, del_obj. cbn [o_data o_vers].
+  rewrite vers_get_del_neq by exact Hne. reflexivity.
+Qed.
+
+Lemma obj_ver_del_eq next o id cur :
+  obj_ok next o -> o_data o = Some cur -> vd_vid cur <> id ->
+  obj_ver (del_obj o id) id = OErr ENoSuchVersion.
+Proof.
+  intros (cur' & Hd' & _ & _ & Hok & _) Hd Hne. unfold obj_ver, del_obj. cbn [o_data o_vers].
+  rewrite Hd. rewrite (proj2 (N.eqb_neq _ _) Hne).
+  rewrite vers_get_del_eq; [reflexivity|]. apply vers_ok_iff in Hok. apply Hok.
+Qed.
+
+(* ---------- bucket level: well-formedness ---------- *)
+Lemma obj_ok_mono next n o : next <= n -> obj_ok next o -> obj_ok n o.
+Proof.
+  intros Hle (cur & Hd & Hc & Hrest). exists cur. split; [exact Hd|]. split; [lia|exact Hrest].
+Qed.
+
+Lemma bucket_ok_mono next n bk : next <= n -> bucket_ok next bk -> bucket_ok n bk.
+Proof.
+  intros Hle (Hs & Ho & Hnv). split; [exact Hs|]. split; [|exact Hnv].
+  intros k o Hin. eapply obj_ok_mono; [exact Hle|]. eapply Ho. exact Hin.
+Qed.
+
+Lemma bucket_obj_ok next bk k o : bucket_ok next bk -> sm_get k (b_objs bk) = Some o -> obj_ok next o.
+Proof. intros (_ & Ho & _) Hg. eapply Ho. apply get_in. exact Hg. Qed.
+
+Lemma bucket_put_ok next bk k marker body m :
+  bucket_ok next bk -> bucket_ok (next + 1) (fst (fst (bucket_put bk next k marker body m))).
+Proof.
+  intros (Hs & Ho & Hnv). rewrite bucket_put_eq. cbn [fst]. split; [|split].
+  - cbn [b_objs]. apply sorted_set. exact Hs.
+  - cbn [b_objs]. intros k' o' Hin. apply in_set in Hin as [E|Hin].
+    + inversion E; subst. apply put_obj_ok; [|reflexivity].
+      destruct (sm_get k (b_objs bk)) as [o|] eqn:Eg; [left|right; reflexivity].
+      eapply Ho. apply get_in. exact Eg.
+    + eapply obj_ok_mono; [|eapply Ho; exact Hin]. lia.
+  - unfold never_versioned_ok. cbn [b_ver b_objs]. intros Hv k' o' Hin.
+    apply in_set in Hin as [E|Hin]; [|exact (Hnv Hv k' o' Hin)].
+    inversion E; subst. unfold put_item. rewrite Hv. cbn [is_enabled put_obj o_vers o_data orb negb].
+    split.
+    + destruct (sm_get k (b_objs bk)) as [o|] eqn:Eg; [|reflexivity].
+      destruct (Hnv Hv k o (get_in _ _ _ Eg)) as [Hvers Hnull].
+      destruct (o_data o) as [cur|] eqn:Ed; [|exact Hvers].
+      rewrite (Hnull cur eq_refl). cbn [negb]. exact Hvers.
+    + intros cur Hc. inversion Hc; subst. reflexivity.
+Qed.
+
+Lemma drop_current_eq bk k o :
+  drop_current bk k o =
+  match vers_last (o_vers o) with
+  | Some nv => {| b_ver := b_ver bk; b_objs := sm_set k (drop_obj o nv) (b_objs bk) |}
+  | None => {| b_ver := b_ver bk; b_objs := sm_del k (b_objs bk) |}
+  end.
+Proof. reflexivity. Qed.
+
+Lemma drop_current_ok next bk k o :
+  bucket_ok next bk -> sm_get k (b_objs bk) = Some o -> bucket_ok next (drop_current bk k o).
+Proof.
+  intros (Hs & Ho & Hnv) Hg. rewrite drop_current_eq.
+  destruct (vers_last (o_vers o)) as [nv|] eqn:El.
+  - split; [|split]; cbn [b_objs b_ver].
+    + apply sorted_set. exact Hs.
+    + intros k' o' Hin. apply in_set in Hin as [E|Hin]; [|eapply Ho; exact Hin].
+      inversion E; subst. apply drop_obj_ok; [|exact El]. eapply Ho. apply get_in. exact Hg.
+    + intros Hv k' o' Hin. cbn [b_ver b_objs] in *.
+      apply in_set in Hin as [E|Hin]; [|exact (Hnv Hv k' o' Hin)].
+      exfalso. destruct (Hnv Hv k o (get_in _ _ _ Hg)) as [Hvers _]. rewrite Hvers in El. discriminate.
+  - split; [|split]; cbn [b_objs b_ver].
+    + apply sorted_del. exact Hs.
+    + intros k' o' Hin. apply in_del in Hin. eapply Ho. exact Hin.
+    + intros Hv k' o' Hin. cbn [b_ver b_objs] in *. apply in_del in Hin. exact (Hnv Hv k' o' Hin).
+Qed.
+
+Definition rm_keep (bk : bucket) (o : obj) : bool :=
+  match b_ver bk, o_data o with
+  | VEnabled, _ => true
+  | VSuspended, Some cur => negb (vd_null cur)
+  | _, _ => false
+  end.
+
+Lemma bucket_rm_eq bk next k o :
+  sm_get k (b_objs bk) = Some o ->
+  bucket_rm bk next k =
+  if rm_keep bk o
+  then (fst (fst (bucket_put bk next k true [] [])), next + 1,
+        (true, if is_enabled (b_ver bk) then Some (next + 1) else None))
+  else (drop_current bk k o, next, (false, None)).
+Proof. intros Hg. unfold bucket_rm. rewrite Hg. reflexivity. Qed.
+
+Lemma rm_keep_false next bk k o cur :
+  bucket_ok next bk -> sm_get k (b_objs bk) = Some o -> rm_keep bk o = false ->
+  o_data o = Some cur -> vd_null cur = true.
+Proof.
+  intros (_ & _ & Hnv) Hg Hk Hd. unfold rm_keep in Hk. destruct (b_ver bk) eqn:Ev.
+  - destruct (Hnv Ev k o (get_in _ _ _ Hg)) as [_ Hnull]. apply Hnull. exact Hd.
+  - discriminate.
+  - rewrite Hd in Hk. destruct (vd_null cur); [reflexivity|discriminate].
+Qed.
+
+Lemma bucket_rm_ok next bk k :
+  bucket_ok next bk ->
+  bucket_ok (snd (fst (bucket_rm bk next k))) (fst (fst (bucket_rm bk next k))) /\
+  next <= snd (fst (bucket_rm bk next k)).
+Proof.
+  intros Hok. destruct (sm_get k (b_objs bk)) as [o|] eqn:Eg.
+  - rewrite (bucket_rm_eq _ _ _ _ Eg). destruct (rm_keep bk o); cbn [fst snd].
+    + split; [apply bucket_put_ok; exact Hok|lia].
+    + split; [eapply drop_current_ok; eassumption|lia].
+  - unfold bucket_rm. rewrite Eg. cbn [fst snd]. split; [exact Hok|lia].
+Qed.
+
+Lemma bucket_rm_version_eq bk k id o cur :
+  sm_get k (b_objs bk) = Some o -> o_data o = Some cur ->
+  bucket_rm_version bk k id =
+  if N.eqb (vd_vid cur) id then (drop_current bk k o, (vd_marker cur, Some id))
+  else match vers_get id (o_vers o) with
+       | None => (bk, (false, None))
+       | Some v => ({| b_ver := b_ver bk; b_objs := sm_set k (del_obj o id) (b_objs bk) |},
+                    (vd_marker v, Some id))
+       end.
+Proof. intros Hg Hd. unfold bucket_rm_version, del_obj. rewrite Hg, Hd. reflexivity. Qed.
+
+Lemma bucket_rm_version_ok next bk k id :
+  bucket_ok next bk -> bucket_ok next (fst (bucket_rm_version bk k id)).
+Proof.
+  intros Hok. destruct (sm_get k (b_objs bk)) as [o|] eqn:Eg.
+  2:{ unfold bucket_rm_version. rewrite Eg. exact Hok. }
+  pose proof (bucket_obj_ok _ _ _ _ Hok Eg) as Ho. destruct Ho as (cur & Hd & _).
+  pose proof (bucket_obj_ok _ _ _ _ Hok Eg) as Ho.
+  rewrite (bucket_rm_version_eq _ _ _ _ _ Eg Hd).
+  destruct (N.eqb (vd_vid cur) id); cbn [fst].
+  - eapply drop_current_ok; eassumption.
+  - destruct (vers_get id (o_vers o)) as [w|] eqn:Egv; cbn [fst]; [|exact Hok].
+    destruct Hok as (Hs & Hobjs & Hnv). split; [|split]; cbn [b_objs b_ver].
+    + apply sorted_set. exact Hs.
+    + intros k' o' Hin. apply in_set in Hin as [E|Hin]; [|eapply Hobjs; exact Hin].
+      inversion E; subst. apply del_obj_ok. exact Ho.
+    + intros Hv k' o' Hin. cbn [b_ver b_objs] in *.
+      apply in_set in Hin as [E|Hin]; [|exact (Hnv Hv k' o' Hin)].
+      exfalso. destruct (Hnv Hv k o (get_in _ _ _ Eg)) as [Hvers _]. rewrite Hvers in Egv. discriminate.
+Qed.
+
+(* ---------- bucket level: lookups by version id ---------- *)
+Lemma bucket_put_survives next bk k' marker body m k id v sv :
+  bucket_ok next bk -> bver bk k id = OObj v sv -> vd_null v = false ->
+  bver (fst (fst (bucket_put bk next k' marker body m))) k id = OObj v true.
+Proof.
+  intros Hok H Hn. pose proof (bver_sv _ _ _ _ _ H) as ->. rewrite bucket_put_eq. cbn [fst].
+  unfold bver in *. cbn [b_objs]. destruct (beq k k') eqn:E.
+  - apply beq_eq in E. subst k'. rewrite get_set_eq.
+    destruct (sm_get k (b_objs bk)) as [o|] eqn:Eg; [|discriminate].
+    eapply obj_ver_put; [eapply bucket_obj_ok; eassumption|exact H|exact Hn|reflexivity].
+  - apply beq_neq in E. rewrite get_set_neq by exact E. exact H.
+Qed.
+
+Lemma bver_drop_other bk k' o k id : k <> k' -> bver (drop_current bk k' o) k id = bver bk k id.
+Proof.
+  intros Hne. rewrite drop_current_eq. unfold bver.
+  destruct (vers_last (o_vers o)); cbn [b_objs];
+    [rewrite get_set_neq by exact Hne|rewrite get_del_neq by exact Hne]; reflexivity.
+Qed.
+
+Lemma bver_drop_same next bk k o id v sv :
+  bucket_ok next bk -> sm_get k (b_objs bk) = Some o -> obj_ver o id = OObj v sv ->
+  (forall cur, o_data o = Some cur -> v <> cur) ->
+  bver (drop_current bk k o) k id = OObj v true.
+Proof.
+  intros Hok Hg H Hne.
+  destruct (obj_ver_drop next o id v sv) as (nv & Hl & Hv);
+    [eapply bucket_obj_ok; eassumption|exact H|exact Hne|].
+  rewrite drop_current_eq, Hl. unfold bver. cbn [b_objs]. rewrite get_set_eq. exact Hv.
+Qed.
+
+Lemma bucket_rm_survives next bk k' k id v sv :
+  bucket_ok next bk -> bver bk k id = OObj v sv -> vd_null v = false ->
+  bver (fst (fst (bucket_rm bk next k'))) k id = OObj v true.
+Proof.
+  intros Hok H Hn. pose proof (bver_sv _ _ _ _ _ H) as ->.
+  destruct (sm_get k' (b_objs bk)) as [o'|] eqn:Eg'.
+  2:{ unfold bucket_rm. rewrite Eg'. exact H. }
+  rewrite (bucket_rm_eq _ _ _ _ Eg'). destruct (rm_keep bk o') eqn:Ek; cbn [fst].
+  - eapply bucket_put_survives; eassumption.
+  - destruct (beq k k') eqn:E.
+    + apply beq_eq in E. subst k'. unfold bver in H. rewrite Eg' in H.
+      eapply bver_drop_same; [exact Hok|exact Eg'|exact H|].
+      intros cur Hd ->. rewrite (rm_keep_false _ _ _ _ _ Hok Eg' Ek Hd) in Hn. discriminate.
+    + apply beq_neq in E. rewrite bver_drop_other by exact E. exact H.
+Qed.
+
+Lemma bucket_rm_version_survives next bk k' id' k id v sv :
+  bucket_ok next bk -> bver bk k id = OObj v sv -> (k', id') <> (k, id) ->
+  bver (fst (bucket_rm_version bk k' id')) k id = OObj v true.
+Proof.
+  intros Hok H Hne. pose proof (bver_sv _ _ _ _ _ H) as ->.
+  destruct (sm_get k' (b_objs bk)) as [o'|] eqn:Eg'.
+  2:{ unfold bucket_rm_version. rewrite Eg'. exact H. }
+  pose proof (bucket_obj_ok _ _ _ _ Hok Eg') as Ho'. destruct (Ho') as (cur & Hd & _).
+  rewrite (bucket_rm_version_eq _ _ _ _ _ Eg' Hd).
+  destruct (beq k k') eqn:E.
+  - apply beq_eq in E. subst k'. assert (Hid : id <> id') by (intros ->; apply Hne; reflexivity).
+    unfold bver in H. rewrite Eg' in H.
+    destruct (N.eqb (vd_vid cur) id') eqn:Ec; cbn [fst].
+    + eapply bver_drop_same; [exact Hok|exact Eg'|exact H|].
+      intros cur' Hd' ->. assert (cur' = cur) by congruence. subst cur'.
+      destruct (obj_ver_cases _ _ _ _ _ Ho' H) as (_ & Hv & _). apply N.eqb_eq in Ec. congruence.
+    + destruct (vers_get id' (o_vers o')); cbn [fst]; [|unfold bver; rewrite Eg'; exact H].
+      unfold bver. cbn [b_objs]. rewrite get_set_eq. rewrite obj_ver_del_neq by exact Hid. exact H.
+  - apply beq_neq in E. destruct (N.eqb (vd_vid cur) id'); cbn [fst].
+    + rewrite bver_drop_other by exact E. exact H.
+    + destruct (vers_get id' (o_vers o')); cbn [fst]; [|exact H].
+      unfold bver in *. cbn [b_objs]. rewrite get_set_neq by exact E. exact H.
+Qed.
+
+Lemma bucket_rm_version_gone next bk k id v sv :
+  bucket_ok next bk -> bver (fst (bucket_rm_version bk k id)) k id <> OObj v sv.
+Proof.
+  intros Hok. destruct (sm_get k (b_objs bk)) as [o|] eqn:Eg.
+  2:{ unfold bucket_rm_version, bver. rewrite Eg. cbn [fst]. rewrite Eg. discriminate. }
+  pose proof (bucket_obj_ok _ _ _ _ Hok Eg) as Ho. destruct (Ho) as (cur & Hd & _).
+  rewrite (bucket_rm_version_eq _ _ _ _ _ Eg Hd).
+  destruct (N.eqb (vd_vid cur) id) eqn:Ec; cbn [fst].
+  - apply N.eqb_eq in Ec. subst id. rewrite drop_current_eq.
+    destruct (vers_last (o_vers o)) as [nv|] eqn:El; unfold bver; cbn [b_objs].
+    + rewrite get_set_eq. eapply obj_ver_drop_gone; eassumption.
+    + rewrite get_del_eq by apply Hok. discriminate.
+  - apply N.eqb_neq in Ec. destruct (vers_get id (o_vers o)) as [w|] eqn:Egv; cbn [fst]; unfold bver.
+    + cbn [b_objs]. rewrite get_set_eq. rewrite (obj_ver_del_eq next o id cur Ho Hd Ec). discriminate.
+    + rewrite Eg. unfold obj_ver. rewrite Hd. rewrite (proj2 (N.eqb_neq _ _) Ec). rewrite Egv.
+      discriminate.
+Qed.
+
+(* ---------- state level ---------- *)
+Lemma gov_set_same bs n b bk' k id :
+  get_object_version {| st_buckets := sm_set b bk' bs; st_next := n |} b k id = bver bk' k id.
+Proof. rewrite gov_bver. unfold get_bucket. cbn [st_buckets]. rewrite get_set_eq. reflexivity. Qed.
+
+Lemma gov_ext s s' b k id :
+  get_bucket s' b = get_bucket s b -> get_object_version s' b k id = get_object_version s b k id.
+Proof. intros H. rewrite !gov_bver, H. reflexivity. Qed.
+
+Lemma gov_set_other s n b bk' b0 k id :
+  b0 <> b ->
+  get_object_version {| st_buckets := sm_set b bk' (st_buckets s); st_next := n |} b0 k id =
+  get_object_version s b0 k id.
+Proof.
+  intros Hne. apply gov_ext. unfold get_bucket. cbn [st_buckets]. apply get_set_neq. exact Hne.
+Qed.
+
+Lemma gov_del_other s n b b0 k id :
+  b0 <> b ->
+  get_object_version {| st_buckets := sm_del b (st_buckets s); st_next := n |} b0 k id =
+  get_object_version s b0 k id.
+Proof.
+  intros Hne. apply gov_ext. unfold get_bucket. cbn [st_buckets]. apply get_del_neq. exact Hne.
+Qed.
+
+Lemma gov_bucket s b k id v sv : get_object_version s b k id = OObj v sv -> get_bucket s b <> None.
+Proof. rewrite gov_bver. destruct (get_bucket s b); discriminate. Qed.
+
+Lemma inv_bucket s b bk : Inv s -> get_bucket s b = Some bk -> bucket_ok (st_next s) bk.
+Proof. intros [_ H] Hg. eapply H. apply get_in. exact Hg. Qed.
+
+Lemma inv_set s b bk' n :
+  Inv s -> st_next s <= n -> bucket_ok n bk' ->
+  Inv {| st_buckets := sm_set b bk' (st_buckets s); st_next := n |}.
+Proof.
+  intros [Hs Hb] Hle Hok. split; cbn [st_buckets st_next].
+  - apply sorted_set. exact Hs.
+  - intros b0 bk0 Hin. apply in_set in Hin as [E|Hin].
+    + inversion E; subst. exact Hok.
+    + eapply bucket_ok_mono; [exact Hle|]. eapply Hb. exact Hin.
+Qed.
+
+(* under the invariant a version found by id carries that id, which is positive and at most
+   the counter *)
+Lemma gov_id s b k id v sv :
+  Inv s -> get_object_version s b k id = OObj v sv -> vd_vid v = id /\ id <= st_next s /\ 0 < id.
+Proof.
+  intros HI H. rewrite gov_bver in H. destruct (get_bucket s b) as [bk|] eqn:Eb; [|discriminate].
+  unfold bver in H. destruct (sm_get k (b_objs bk)) as [o|] eqn:Eg; [|discriminate].
+  pose proof (bucket_obj_ok _ _ _ _ (inv_bucket _ _ _ HI Eb) Eg) as Ho.
+  destruct (obj_ver_cases _ _ _ _ _ Ho H) as (_ & Hv & Hle & Hpos & _). subst id. auto.
+Qed.
+
+Lemma put_object_eq s b k body m :
+  put_object s b k body m =
+  match get_bucket s b with
+  | None => (s, (Some ENoSuchBucket, None))
+  | Some bk =>
+      ({| st_buckets := sm_set b (fst (fst (bucket_put bk (st_next s) k false body m))) (st_buckets s);
+          st_next := st_next s + 1 |},
+       (None, match b_ver bk with VEnabled => Some (st_next s + 1) | _ => None end))
+  end.
+Proof. reflexivity. Qed.
+
+Lemma delete_object_eq s b k :
+  delete_object s b k =
+  match get_bucket s b with
+  | None => (s, (Some ENoSuchBucket, (false, None)))
+  | Some bk =>
+      ({| st_buckets := sm_set b (fst (fst (bucket_rm bk (st_next s) k))) (st_buckets s);
+          st_next := snd (fst (bucket_rm bk (st_next s) k)) |},
+       (None, snd (bucket_rm bk (st_next s) k)))
+  end.
+Proof.
+  unfold delete_object. destruct (get_bucket s b) as [bk|]; [|reflexivity].
+  destruct (bucket_rm bk (st_next s) k) as [[bk' n'] r]. reflexivity.
+Qed.
+
+Lemma delete_object_version_eq s b k id :
+  delete_object_version s b k id =
+  match get_bucket s b with
+  | None => (s, (Some ENoSuchBucket, (false, None)))
+  | Some bk =>
+      ({| st_buckets := sm_set b (fst (bucket_rm_version bk k id)) (st_buckets s);
+          st_next := st_next s |},
+       (None, snd (bucket_rm_version bk k id)))
+  end.
+Proof.
+  unfold delete_object_version. destruct (get_bucket s b) as [bk|]; [|reflexivity].
+  destruct (bucket_rm_version bk k id) as [bk' r]. reflexivity.
+Qed.
+
+(* preservation of the invariant by the backend calls *)
+Lemma put_object_inv' s b k body m : Inv s -> Inv (fst (put_object s b k body m)).
+Proof.
+  intros HI. rewrite put_object_eq. destruct (get_bucket s b) as [bk|] eqn:Eb; [|exact HI].
+  cbn [fst]. apply inv_set; [exact HI|lia|]. apply bucket_put_ok. eapply inv_bucket; eassumption.
+Qed.
+
+Lemma delete_object_inv' s b k : Inv s -> Inv (fst (delete_object s b k)).
+Proof.
+  intros HI. rewrite delete_object_eq. destruct (get_bucket s b) as [bk|] eqn:Eb; [|exact HI].
+  cbn [fst]. destruct (bucket_rm_ok (st_next s) bk k (inv_bucket _ _ _ HI Eb)) as [H1 H2].
+  apply inv_set; assumption.
+Qed.
+
+Lemma delete_object_version_inv' s b k id : Inv s -> Inv (fst (delete_object_version s b k id)).
+Proof.
+  intros HI. rewrite delete_object_version_eq. destruct (get_bucket s b) as [bk|] eqn:Eb; [|exact HI].
+  cbn [fst]. apply inv_set; [exact HI|lia|]. apply bucket_rm_version_ok. eapply inv_bucket; eassumption.
+Qed.
+
+Lemma delete_multi_inv' b ks : forall s, Inv s -> Inv (delete_multi s b ks).
+Proof.
+  induction ks as [|[k [id|]] ks IH]; intros s HI; cbn [delete_multi].
+  - exact HI.
+  - apply IH. apply delete_object_version_inv'. exact HI.
+  - apply IH. apply delete_object_inv'. exact HI.
+Qed.
+
+Lemma set_versioning_inv' s b en : Inv s -> Inv (fst (set_versioning s b en)).
+Proof.
+  intros HI. unfold set_versioning. destruct (get_bucket s b) as [bk|] eqn:Eb; [|exact HI].
+  cbn [fst]. unfold set_bucket. apply inv_set; [exact HI|lia|].
+  destruct (inv_bucket _ _ _ HI Eb) as (Hs & Ho & Hnv). split; [exact Hs|]. split; [exact Ho|].
+  unfold never_versioned_ok. cbn [b_ver b_objs]. intros Hv. apply Hnv.
+  destruct en; [discriminate|]. destruct (b_ver bk); [reflexivity|discriminate|discriminate].
+Qed.
+
+Lemma ensure_bucket_spec c s b' s1 r :
+  ensure_bucket c s b' = (s1, r) -> Inv s ->
+  Inv s1 /\ st_next s1 = st_next s /\
+  (forall b, get_bucket s b <> None -> get_bucket s1 b = get_bucket s b).
+Proof.
+  unfold ensure_bucket. intros H HI. destruct (get_bucket s b') as [bk|] eqn:Eb.
+  - inversion H; subst. auto.
+  - destruct (cfg_auto_bucket c).
+    + unfold create_bucket in H. rewrite Eb in H. cbn [fst] in H. inversion H; subst. clear H.
+      unfold set_bucket. split; [|split].
+      * apply inv_set; [exact HI|lia|]. split; [exact I|]. split.
+        -- intros k o [].
+        -- intros _ k o [].
+      * reflexivity.
+      * intros b Hb. unfold get_bucket. cbn [st_buckets]. apply get_set_neq.
+        intros ->. apply Hb. exact Eb.
+    + inversion H; subst. auto.
+Qed.
+
+Lemma ensure_bucket_gov c s b' s1 r b k id v sv :
+  ensure_bucket c s b' = (s1, r) -> Inv s ->
+  get_object_version s b k id = OObj v sv -> get_object_version s1 b k id = OObj v sv.
+Proof.
+  intros He HI Hg. destruct (ensure_bucket_spec _ _ _ _ _ He HI) as (_ & _ & Hb).
+  rewrite <- Hg. apply gov_ext. apply Hb. eapply gov_bucket. exact Hg.
+Qed.
+
+(* ---------- survival of a version through the backend calls ---------- *)
+Lemma put_object_survives s b' k' body m b k id v sv :
+  Inv s -> get_object_version s b k id = OObj v sv -> vd_null v = false ->
+  get_object_version (fst (put_object s b' k' body m)) b k id = OObj v true.
+Proof.
+  intros HI Hg Hn. pose proof (gov_sv _ _ _ _ _ _ Hg) as ->. rewrite put_object_eq.
+  destruct (get_bucket s b') as [bk|] eqn:Eb; [|exact Hg]. cbn [fst].
+  destruct (beq b b') eqn:E.
+  - apply beq_eq in E. subst b'. rewrite gov_set_same. rewrite gov_bver, Eb in Hg.
+    eapply bucket_put_survives; [eapply inv_bucket; eassumption|exact Hg|exact Hn].
+  - apply beq_neq in E. rewrite gov_set_other by exact E. exact Hg.
+Qed.
+
+Lemma delete_object_survives s b' k' b k id v sv :
+  Inv s -> get_object_version s b k id = OObj v sv -> vd_null v = false ->
+  get_object_version (fst (delete_object s b' k')) b k id = OObj v true.
+Proof.
+  intros HI Hg Hn. pose proof (gov_sv _ _ _ _ _ _ Hg) as ->. rewrite delete_object_eq.
+  destruct (get_bucket s b') as [bk|] eqn:Eb; [|exact Hg]. cbn [fst].
+  destruct (beq b b') eqn:E.
+  - apply beq_eq in E. subst b'. rewrite gov_set_same. rewrite gov_bver, Eb in Hg.
+    eapply bucket_rm_survives; [eapply inv_bucket; eassumption|exact Hg|exact Hn].
+  - apply beq_neq in E. rewrite gov_set_other by exact E. exact Hg.
+Qed.
+
+(* deleting one version keeps every other version (null or not) *)
+Lemma delete_object_version_survives s b' k' id' b k id v sv :
+  Inv s -> get_object_version s b k id = OObj v sv -> (b', k', id') <> (b, k, id) ->
+  get_object_version (fst (delete_object_version s b' k' id')) b k id = OObj v true.
+Proof.
+  intros HI Hg Hne. pose proof (gov_sv _ _ _ _ _ _ Hg) as ->. rewrite delete_object_version_eq.
+  destruct (get_bucket s b') as [bk|] eqn:Eb; [|exact Hg]. cbn [fst].
+  destruct (beq b b') eqn:E.
+  - apply beq_eq in E. subst b'. rewrite gov_set_same. rewrite gov_bver, Eb in Hg.
+    eapply bucket_rm_version_survives; [eapply inv_bucket; eassumption|exact Hg|].
+    intros E. inversion E; subst. apply Hne. reflexivity.
+  - apply beq_neq in E. rewrite gov_set_other by exact E. exact Hg.
+Qed.
+
+Lemma delete_multi_survives b' ks b k id v :
+  forall s sv, Inv s -> get_object_version s b k id = OObj v sv -> vd_null v = false ->
+  (b' = b -> ~ In (k, Some id) ks) ->
+  get_object_version (delete_multi s b' ks) b k id = OObj v true.
+Proof.
+  induction ks as [|[k1 [id1|]] ks IH]; intros s sv HI Hg Hn Hnin; cbn [delete_multi].
+  - pose proof (gov_sv _ _ _ _ _ _ Hg) as ->. exact Hg.
+  - eapply IH; [apply delete_object_version_inv'; exact HI| |exact Hn|].
+    + eapply delete_object_version_survives; [exact HI|exact Hg|].
+      intros E. inversion E; subst. apply Hnin; [reflexivity|left; reflexivity].
+    + intros Eb Hin. apply (Hnin Eb). right. exact Hin.
+  - eapply IH; [apply delete_object_inv'; exact HI| |exact Hn|].
+    + eapply delete_object_survives; [exact HI|exact Hg|exact Hn].
+    + intros Eb Hin. apply (Hnin Eb). right. exact Hin.
+Qed.
+
+Lemma set_versioning_gov s b' en b k id :
+  get_object_version (fst (set_versioning s b' en)) b k id = get_object_version s b k id.
+Proof.
+  unfold set_versioning. destruct (get_bucket s b') as [bk|] eqn:Eb; [|reflexivity].
+  cbn [fst]. unfold set_bucket. destruct (beq b b') eqn:E.
+  - apply beq_eq in E. subst b'. rewrite gov_set_same. rewrite gov_bver, Eb. reflexivity.
+  - apply beq_neq in E. apply gov_set_other. exact E.
+Qed.
+
+(* ---------- the laws ---------- *)
+
+(* strong form of (a): the flag is [true] *)
+Lemma version_survives_strong c s o b k id v sv :
+  Inv s -> get_object_version s b k id = OObj v sv -> vd_null v = false ->
+  ~ deletes_version o b k id ->
+  get_object_version (fst (step c s o)) b k id = OObj v true.
+Proof.
+  intros HI Hg Hn Hnd. pose proof (gov_sv _ _ _ _ _ _ Hg) as ->.
+  pose proof (gov_bucket _ _ _ _ _ _ Hg) as Hb.
+  destruct o as [b0|b0|b0| |b0 k0 body m|b0 k0 vid|b0 k0 vid|b0 k0|b0 k0 id0|b0 ks|sb sk b0 k0|b0 en
+                |b0 pre delim marker hm mk]; cbn [step].
+  - (* OCreateBucket *)
+    destruct (negb (validate b0)); [exact Hg|]. unfold create_bucket.
+    destruct (get_bucket s b0) as [bk0|] eqn:E0; cbn [fst]; [exact Hg|].
+    unfold set_bucket. rewrite gov_set_other; [exact Hg|]. intros ->. apply Hb. exact E0.
+  - (* ODeleteBucket *)
+    destruct (ensure_bucket c s b0) as [s1 [e|]] eqn:Ee;
+      pose proof (ensure_bucket_gov _ _ _ _ _ _ _ _ _ _ Ee HI Hg) as Hg1; [exact Hg1|].
+    unfold delete_bucket. destruct (get_bucket s1 b0) as [bk0|] eqn:E0; cbn [fst]; [|exact Hg1].
+    destruct (b_objs bk0) as [|p l] eqn:Eo; cbn [fst]; [|exact Hg1].
+    rewrite gov_del_other; [exact Hg1|]. intros ->.
+    rewrite gov_bver, E0 in Hg1. unfold bver in Hg1. rewrite Eo in Hg1. discriminate.
+  - (* OHeadBucket *)
+    destruct (ensure_bucket c s b0) as [s1 [e|]] eqn:Ee;
+      pose proof (ensure_bucket_gov _ _ _ _ _ _ _ _ _ _ Ee HI Hg) as Hg1; exact Hg1.
+  - (* OListBuckets *) exact Hg.
+  - (* OPut *)
+    destruct (ensure_bucket c s b0) as [s1 [e|]] eqn:Ee;
+      pose proof (ensure_bucket_gov _ _ _ _ _ _ _ _ _ _ Ee HI Hg) as Hg1; [exact Hg1|].
+    destruct (ensure_bucket_spec _ _ _ _ _ Ee HI) as (HI1 & _ & _).
+    pose proof (put_object_survives s1 b0 k0 body m _ _ _ _ _ HI1 Hg1 Hn) as Hs.
+    destruct (put_object s1 b0 k0 body m) as [s2 [[e|] vid]]; exact Hs.
+  - (* OGet *)
+    destruct (ensure_bucket c s b0) as [s1 [e|]] eqn:Ee;
+      pose proof (ensure_bucket_gov _ _ _ _ _ _ _ _ _ _ Ee HI Hg) as Hg1; [exact Hg1|].
+    destruct vid as [id0|].
+    + destruct (negb (cfg_versioned c)); [exact Hg1|].
+      destruct (get_object_version s1 b0 k0 id0) as [e|v0 sv0]; [exact Hg1|].
+      destruct (vd_marker v0); exact Hg1.
+    + destruct (get_object s1 b0 k0); exact Hg1.
+  - (* OHead *)
+    destruct (ensure_bucket c s b0) as [s1 [e|]] eqn:Ee;
+      pose proof (ensure_bucket_gov _ _ _ _ _ _ _ _ _ _ Ee HI Hg) as Hg1; [exact Hg1|].
+    destruct vid as [id0|].
+    + destruct (negb (cfg_versioned c)); [exact Hg1|].
+      destruct (get_object_version s1 b0 k0 id0) as [e|v0 sv0]; [exact Hg1|].
+      destruct (vd_marker v0); exact Hg1.
+    + destruct (get_object s1 b0 k0); exact Hg1.
+  - (* ODelete *)
+    destruct (ensure_bucket c s b0) as [s1 [e|]] eqn:Ee;
+      pose proof (ensure_bucket_gov _ _ _ _ _ _ _ _ _ _ Ee HI Hg) as Hg1; [exact Hg1|].
+    destruct (ensure_bucket_spec _ _ _ _ _ Ee HI) as (HI1 & _ & _).
+    pose proof (delete_object_survives s1 b0 k0 _ _ _ _ _ HI1 Hg1 Hn) as Hs.
+    destruct (delete_object s1 b0 k0) as [s2 [[e|] [mk vid]]]; exact Hs.
+  - (* ODeleteVersion *)
+    destruct (negb (cfg_versioned c)); [exact Hg|].
+    destruct (ensure_bucket c s b0) as [s1 [e|]] eqn:Ee;
+      pose proof (ensure_bucket_gov _ _ _ _ _ _ _ _ _ _ Ee HI Hg) as Hg1; [exact Hg1|].
+    destruct (ensure_bucket_spec _ _ _ _ _ Ee HI) as (HI1 & _ & _).
+    assert (Hne : (b0, k0, id0) <> (b, k, id)).
+    { intros E. inversion E; subst. apply Hnd. cbn. auto. }
+    pose proof (delete_object_version_survives s1 b0 k0 id0 _ _ _ _ _ HI1 Hg1 Hne) as Hs.
+    destruct (delete_object_version s1 b0 k0 id0) as [s2 [[e|] [mk vid]]]; exact Hs.
+  - (* OMultiDelete *)
+    destruct (ensure_bucket c s b0) as [s1 [e|]] eqn:Ee;
+      pose proof (ensure_bucket_gov _ _ _ _ _ _ _ _ _ _ Ee HI Hg) as Hg1; [exact Hg1|].
+    destruct (ensure_bucket_spec _ _ _ _ _ Ee HI) as (HI1 & _ & _).
+    cbn [fst]. eapply delete_multi_survives; [exact HI1|exact Hg1|exact Hn|].
+    intros -> Hin. destruct (cfg_versioned c).
+    + apply Hnd. cbn. auto.
+    + apply in_map_iff in Hin as (x & Hx & _). discriminate Hx.
+  - (* OCopy *)
+    destruct (ensure_bucket c s b0) as [s1 [e|]] eqn:Ee;
+      pose proof (ensure_bucket_gov _ _ _ _ _ _ _ _ _ _ Ee HI Hg) as Hg1; [exact Hg1|].
+    destruct (ensure_bucket_spec _ _ _ _ _ Ee HI) as (HI1 & _ & _).
+    destruct (get_object s1 sb sk) as [e|v0 sv0]; [exact Hg1|].
+    pose proof (put_object_survives s1 b0 k0 (vd_body v0) (vd_meta v0) _ _ _ _ _ HI1 Hg1 Hn) as Hs.
+    destruct (put_object s1 b0 k0 (vd_body v0) (vd_meta v0)) as [s2 [[e|] vid]]; exact Hs.
+  - (* OSetVersioning *)
+    destruct (ensure_bucket c s b0) as [s1 [e|]] eqn:Ee;
+      pose proof (ensure_bucket_gov _ _ _ _ _ _ _ _ _ _ Ee HI Hg) as Hg1; [exact Hg1|].
+    destruct (negb (cfg_versioned c)); [exact Hg1|].
+    pose proof (set_versioning_gov s1 b0 en b k id) as Hs.
+    destruct (set_versioning s1 b0 en) as [s2 [e|]]; cbn [fst] in *; rewrite Hs; exact Hg1.
+  - (* OList *)
+    destruct (ensure_bucket c s b0) as [s1 [e|]] eqn:Ee;
+      pose proof (ensure_bucket_gov _ _ _ _ _ _ _ _ _ _ Ee HI Hg) as Hg1; [exact Hg1|].
+    cbv zeta.
+    destruct ((hm || negb (beq marker []) || negb (mk =? 0)%Z) && negb (cfg_pages c) && cfg_fail_unimpl_page c);
+      [exact Hg1|].
+    destruct (if (hm || negb (beq marker []) || negb (mk =? 0)%Z) && negb (cfg_pages c) then ([], 0%Z) else (marker, mk))
+      as [marker' mk'].
+    destruct (list_bucket s1 b0 pre delim marker' mk'); exact Hg1.
+Qed.
 
 (* (a) A version created while versioning was Enabled stays retrievable by id, with exactly
    its own bytes and metadata, through EVERY operation — puts, plain deletes, suspension,
@@ -20,7 +946,8 @@ Lemma version_survives c s o b k id v sv :
   ~ deletes_version o b k id ->
   exists sv', get_object_version (fst (step c s o)) b k id = OObj v sv'.
 Proof.
-Admitted.
+  intros HI Hg Hn Hnd. exists true. eapply version_survives_strong; eassumption.
+Qed.
 
 (* (b) every upload into an Enabled bucket gets an id greater than every id stored anywhere
    before (hence fresh and unique), and is retrievable under that id *)
@@ -30,7 +957,17 @@ Lemma put_fresh_id c s b k body m s1 id :
   exists v sv, get_object_version s1 b k id = OObj v sv /\ vd_body v = body /\ vd_meta v = m /\
                vd_null v = false /\ vd_marker v = false.
 Proof.
-Admitted.
+  intros HI H. cbn [step] in H.
+  destruct (ensure_bucket c s b) as [s0 [e|]] eqn:Ee; [discriminate|].
+  destruct (ensure_bucket_spec _ _ _ _ _ Ee HI) as (HI0 & Hn0 & _).
+  rewrite put_object_eq in H. destruct (get_bucket s0 b) as [bk|] eqn:Eb; [|discriminate].
+  destruct (b_ver bk) eqn:Ev; try discriminate. injection H as Hs Hid. subst s1 id. split.
+  - intros b' k' id' v sv Hg. destruct (gov_id _ _ _ _ _ _ HI Hg) as (_ & Hle & _). lia.
+  - rewrite gov_set_same. unfold bver. cbn [b_objs]. rewrite get_set_eq.
+    unfold obj_ver. cbn [o_data vd_vid]. rewrite N.eqb_refl.
+    eexists _, _. split; [reflexivity|]. cbn [vd_body vd_meta vd_null vd_marker]. rewrite Ev.
+    repeat split; reflexivity.
+Qed.
 
 (* (c) in an Enabled bucket a plain delete of an existing key only adds a delete marker: the
    key then reads NoSuchKey *)
@@ -40,7 +977,20 @@ Lemma plain_delete_adds_marker c s b k bk o0 :
                 get_object s1 b k = OErr ENoSuchKey /\
                 exists mk sv, get_object_version s1 b k id = OObj mk sv /\ vd_marker mk = true.
 Proof.
-Admitted.
+  intros HI Hb Hv Hg.
+  assert (Hstep : step c s (ODelete b k) =
+    ({| st_buckets := sm_set b (fst (fst (bucket_put bk (st_next s) k true [] []))) (st_buckets s);
+        st_next := st_next s + 1 |}, RDel true (Some (st_next s + 1)))).
+  { cbn [step]. unfold ensure_bucket. rewrite Hb. rewrite delete_object_eq, Hb.
+    rewrite (bucket_rm_eq _ _ _ _ Hg). unfold rm_keep. rewrite Hv. cbn [fst snd is_enabled].
+    reflexivity. }
+  eexists _, _. split; [exact Hstep|]. split.
+  - unfold get_object, get_bucket. cbn [st_buckets]. rewrite get_set_eq.
+    rewrite bucket_put_eq. cbn [fst b_objs b_ver]. rewrite get_set_eq. reflexivity.
+  - rewrite gov_set_same, bucket_put_eq. cbn [fst]. unfold bver. cbn [b_objs]. rewrite get_set_eq.
+    unfold obj_ver, put_obj. cbn [o_data put_item vd_vid]. rewrite N.eqb_refl.
+    eexists _, _. split; reflexivity.
+Qed.
 
 (* (d) deleting a specific version removes just that version: it is gone, every other version
    of every key that was retrievable still is, unchanged *)
@@ -51,7 +1001,19 @@ Lemma delete_version_only_that c s b k id :
   (forall b' k' id' v sv, (b', k', id') <> (b, k, id) ->
       get_object_version s b' k' id' = OObj v sv -> get_object_version s1 b' k' id' = OObj v sv).
 Proof.
-Admitted.
+  intros HI Hc Hb. cbv zeta.
+  assert (E : fst (step c s (ODeleteVersion b k id)) = fst (delete_object_version s b k id)).
+  { cbn [step]. rewrite Hc. cbn [negb]. unfold ensure_bucket.
+    destruct (get_bucket s b) as [bk|] eqn:Eb; [|contradiction].
+    destruct (delete_object_version s b k id) as [s2 [[e|] [mk vid]]]; reflexivity. }
+  rewrite E. split.
+  - intros v sv. rewrite delete_object_version_eq.
+    destruct (get_bucket s b) as [bk|] eqn:Eb; [|contradiction]. cbn [fst].
+    rewrite gov_set_same. eapply bucket_rm_version_gone. eapply inv_bucket; eassumption.
+  - intros b' k' id' v sv Hne Hg. pose proof (gov_sv _ _ _ _ _ _ Hg) as ->.
+    eapply delete_object_version_survives; [exact HI|exact Hg|].
+    intros E'. apply Hne. symmetry. exact E'.
+Qed.
 
 (* (e) an unqualified read serves the most recently created remaining version: every version
    retrievable by id is no newer than the current one, and the unqualified read answers with
@@ -63,6 +1025,17 @@ Lemma unqualified_is_newest s b k bk o :
     (vd_marker cur = false -> exists sv, get_object s b k = OObj cur sv) /\
     (vd_marker cur = true -> get_object s b k = OErr ENoSuchKey).
 Proof.
-Admitted.
+  intros HI Hb Hg. pose proof (bucket_obj_ok _ _ _ _ (inv_bucket _ _ _ HI Hb) Hg) as Ho.
+  destruct (Ho) as (cur & Hd & _). exists cur. split; [exact Hd|]. split; [|split].
+  - intros id v sv H. rewrite gov_bver, Hb in H. unfold bver in H. rewrite Hg in H.
+    destruct (obj_ver_cases _ _ _ _ _ Ho H) as (_ & _ & _ & _ & cur' & Hd' & Hle & _).
+    assert (cur' = cur) by congruence. subst cur'. exact Hle.
+  - intros Hm. unfold get_object. rewrite Hb, Hg, Hd, Hm. eexists. reflexivity.
+  - intros Hm. unfold get_object. rewrite Hb, Hg, Hd, Hm. reflexivity.
+Qed.
 
 Print Assumptions version_survives.
+Print Assumptions put_fresh_id.
+Print Assumptions plain_delete_adds_marker.
+Print Assumptions delete_version_only_that.
+Print Assumptions unqualified_is_newest.
